@@ -193,7 +193,9 @@ def h_get_and_grad(ctx, n, r):
     Y = ctx.tt('y', n, r)
     F = ref_full(Y)
     d = len(n)
-    for idx in [tuple(k % n[k] for k in range(d)), tuple((n[k] - 1) for k in range(d))]:
+    # (the last two address elements from the end, which get / get_many / interface accept as well)
+    for idx in [tuple(k % n[k] for k in range(d)), tuple((n[k] - 1) for k in range(d)),
+                tuple(-1 - (k % n[k]) for k in range(d)), tuple(-1 if k % 2 else 0 for k in range(d))]:
         val, grad = teneva.get_and_grad(Y, list(idx))
         ctx.claim('value', ctx.eq(val, F[idx]))
         ctx.claim('grad_shapes', all(g.shape == G.shape for g, G in zip(grad, Y)))
